@@ -146,6 +146,30 @@ impl PMatrix {
         }
     }
 
+    /// Absolute change of the travel duration of a leg per unit of departure time around `t` (0 outside of the span).
+    pub fn slope(&self, from: usize, to: usize, t: f64) -> f64 {
+        let idx = from * self.n + to;
+        let k = self.slices.partition_point(|s| (s.0 as f64) <= t);
+        if self.slices.is_empty() || k == 0 || k == self.slices.len() {
+            // (just before the first timestamp the next bracket may already apply to a slightly later departure)
+            if !self.slices.is_empty() && k == 0 && self.slices.len() > 1 {
+                let (l, r) = (&self.slices[0], &self.slices[1]);
+                return ((r.1[idx] - l.1[idx]) as f64 / (r.0 - l.0).max(1) as f64).abs();
+            }
+            return 0.0;
+        }
+        let (l, r) = (&self.slices[k - 1], &self.slices[k]);
+        let here = ((r.1[idx] - l.1[idx]) as f64 / (r.0 - l.0).max(1) as f64).abs();
+        // the bracket which follows may apply to a slightly later departure
+        let next = if k + 1 < self.slices.len() {
+            let (l, r) = (&self.slices[k], &self.slices[k + 1]);
+            ((r.1[idx] - l.1[idx]) as f64 / (r.0 - l.0).max(1) as f64).abs()
+        } else {
+            0.0
+        };
+        here.max(next)
+    }
+
     /// Distance of a leg which is left at time `t` (the value of the latest matrix whose timestamp is not after `t`).
     pub fn distance(&self, from: usize, to: usize, t: f64) -> i64 {
         let idx = from * self.n + to;
